@@ -213,8 +213,20 @@ func runC05Calls(out *vlib.Out, calls []string) {
 	out.Case(line, strings.Join(states, ";")+"|closed:"+strings.Join(cl, "/"), true)
 }
 
+// c05Depth picks an enumeration depth by tier (never scaled by the search factor).
+func c05Depth(quick, thorough int) int {
+	if vlib.Tier() == "thorough" {
+		return thorough
+	}
+	return quick
+}
+
 func c05StatsCalls(out *vlib.Out) {
-	maxLen := vlib.Budget(4, 5)
+	// a DEPTH, not a count: it must not go through vlib.Budget — the targeted search of ./check (VERIF_SEARCH=1)
+	// multiplies budgets by four, and an exhaustive enumeration to depth 16 over ten calls never ends (the
+	// run then lasts until the go-test timeout, twice, and writes gigabytes of cases).  The enumeration is
+	// complete at its depth whatever the seed; the search widens the random histories below instead.
+	maxLen := c05Depth(4, 5)
 	var rec func(prefix []string, open int)
 	rec = func(prefix []string, open int) {
 		if len(prefix) > 0 {
@@ -476,7 +488,7 @@ func c05StatsSessions(out *vlib.Out) {
 		panic(err)
 	}
 	defer ln.Close()
-	maxLen := vlib.Budget(3, 4)
+	maxLen := c05Depth(3, 4) // a depth: see c05StatsCalls
 	bad := 0 // histories on which an oracle failed: each costs up to 10 s of waiting, three are enough
 	// corpus: the shapes worth naming
 	for _, h := range [][]string{
